@@ -131,7 +131,10 @@ func renderManifest(eco string, reqs []MReq, layout string) (name string, conten
 				hasMgmt = true
 			}
 		}
-		if hasMgmt {
+		// layout "profile-mgmt-prop": the managed requirements live in an activeByDefault profile and take their
+		// versions from properties defined in that same profile
+		inProfile := layout == "profile-mgmt-prop" && hasMgmt
+		if hasMgmt && !inProfile {
 			b.WriteString("  <dependencyManagement>\n    <dependencies>\n")
 			for _, r := range reqs {
 				if r.Group == "mgmt" {
@@ -147,7 +150,25 @@ func renderManifest(eco string, reqs []MReq, layout string) (name string, conten
 			}
 		}
 		b.WriteString("  </dependencies>\n")
-		if strings.HasPrefix(layout, "profile-") {
+		if inProfile {
+			b.WriteString("  <profiles>\n    <profile>\n      <id>managed</id>\n      <activation>\n        <activeByDefault>true</activeByDefault>\n      </activation>\n      <properties>\n")
+			k := 0
+			for _, r := range reqs {
+				if r.Group == "mgmt" {
+					k++
+					fmt.Fprintf(&b, "        <m%d.version>%s</m%d.version>\n", k, r.Req, k)
+				}
+			}
+			b.WriteString("      </properties>\n      <dependencyManagement>\n        <dependencies>\n")
+			k = 0
+			for _, r := range reqs {
+				if r.Group == "mgmt" {
+					k++
+					dep(MReq{Name: r.Name, Req: fmt.Sprintf("${m%d.version}", k)}, "          ")
+				}
+			}
+			b.WriteString("        </dependencies>\n      </dependencyManagement>\n    </profile>\n  </profiles>\n")
+		} else if strings.HasPrefix(layout, "profile-") {
 			b.WriteString("  <profiles>\n    <profile>\n      <id>extra</id>\n")
 			if layout == "profile-mgmt-active" {
 				b.WriteString("      <activation>\n        <activeByDefault>true</activeByDefault>\n      </activation>\n")
